@@ -268,7 +268,10 @@ pub async fn run(cfg: RunCfg) -> RunResult {
                     res.violate("C39", "only-latest-open", "older-generation-open", v, format!("version {} region {}: generation {} is open but {} is the latest", v, region, g, maxg));
                 }
                 if trimmed.contains(&(region.clone(), *g)) {
-                    res.violate("C39", "trimmed-stays-gone", "trimmed-generation-reappeared", v, format!("version {} region {}: generation {} was trimmed earlier and is back", v, region, g));
+                    // KF-17: after *every* generation of the region was trimmed, the next advance starts at 0 again
+                    let region_was_empty = prev.as_ref().map(|p| p.get(region).map(|m| m.is_empty()).unwrap_or(true)).unwrap_or(true);
+                    let sig = if region_was_empty && *s == 0 { "trimmed-generation-reappeared:numbering-restart-after-full-trim" } else { "trimmed-generation-reappeared" };
+                    res.violate("C39", "trimmed-stays-gone", sig, v, format!("version {} region {}: generation {} was trimmed earlier and is back", v, region, g));
                 }
                 ever.insert((region.clone(), *g));
             }
